@@ -191,6 +191,58 @@ def _forward_block(blk, log, fq):
             _rec2(c, log, fq)
 
 
+def _alias_block(blk, log, fq):
+    """`T & r = TABLE[idx];  ... r ...`  ->  `... TABLE[idx] ...`  (a reference local bound to a table row or element is that
+    row: the variables of idx are not assigned in the rest of the block, so both spellings name the same object)"""
+    inner = blk.get("inner") or []
+    i = 0
+    while i < len(inner):
+        st = inner[i]
+        if st and st.get("kind") == "DeclStmt" and len(kids(st)) == 1 and kids(st)[0].get("kind") == "VarDecl" and kids(kids(st)[0]):
+            v = kids(st)[0]
+            t = v.get("type", {}).get("qualType", "")
+            init = strip(kids(v)[-1], casts=True) if kids(v) else None
+            if t.rstrip().endswith("&") and not t.rstrip().endswith("&&") and init is not None and subscript(init) is not None:
+                pure = all(x.get("kind") in ("DeclRefExpr", "MemberExpr", "CXXThisExpr", "ImplicitCastExpr", "ParenExpr",
+                                             "IntegerLiteral", "CXXOperatorCallExpr", "ArraySubscriptExpr") or
+                           (x.get("kind") == "BinaryOperator" and x.get("opcode") in ("+", "-", "*"))
+                           for x in walk(init)) and all(
+                    name_of(kids(x)[0]) == "operator[]" for x in walk(init) if x.get("kind") == "CXXOperatorCallExpr")
+                vid = v.get("id")
+                rest = [inner[j] for j in range(i + 1, len(inner)) if inner[j]]
+                idx_ids = {x.get("referencedDecl", {}).get("id") for x in walk(init) if x.get("kind") == "DeclRefExpr"}
+                if pure and not (idx_ids & _assigned_names(rest)):
+                    def rep(n):
+                        ch = n.get("inner")
+                        if not ch:
+                            return
+                        for k_, c in enumerate(ch):
+                            if not c:
+                                continue
+                            if c.get("kind") == "DeclRefExpr" and c.get("referencedDecl", {}).get("id") == vid:
+                                ch[k_] = copy.deepcopy(init)
+                            else:
+                                rep(c)
+                    for b in rest:
+                        rep(b)
+                    del inner[i]
+                    log.append((fq, v.get("name"), "reference alias written out"))
+                    continue
+        i += 1
+    for c in inner:
+        if c:
+            _rec3(c, log, fq)
+
+
+def _rec3(n, log, fq):
+    if n.get("kind") == "CompoundStmt":
+        _alias_block(n, log, fq)
+        return
+    for c in n.get("inner", []) or []:
+        if c:
+            _rec3(c, log, fq)
+
+
 def _rec2(n, log, fq):
     if n.get("kind") == "CompoundStmt":
         _forward_block(n, log, fq)
@@ -204,6 +256,7 @@ def run(tu):
     log = []
     for f in tu.all_fns():
         if f.body is not None:
+            _rec3(f.body, log, f.qual)
             _rec(f.body, log, f.qual)
             _rec2(f.body, log, f.qual)
     return log
